@@ -29,6 +29,7 @@ OPS = [
     "print_config_then_help", "sub_print_config_then_help",
     "parse_args_class", "parse_string_fail",
     "nested_opt_k", "nested_opt_r",
+    "parse_string_other_class", "parse_env_other_class", "parse_object_nodefaults_other_class", "cfg_fail_after_class", "parse_string_init_only",
 ]
 QUICK_OPS = OPS[:18] + OPS[20:]
 
@@ -55,6 +56,8 @@ def _factory():
     p.add_argument("--a", type=int, default=1)
     p.add_argument("--b", type=int, default=0)
     p.add_argument("--m", type=Base, default=None)
+    # a class-typed argument whose default is a spec with init_args: a class change must not edit the declared default
+    p.add_argument("--sd", type=Base, default={"class_path": "vf.fixtures.Sub1", "init_args": {"w": 5, "z": 0.75}})
     p.add_argument("--tags", type=List[str], default=["base"])
     p.add_argument("--opt", type=Optional[float], default=None)
     p.add_class_arguments(OptHolder, "grp")
@@ -73,7 +76,7 @@ def _factory():
 def _const_cfg():
     from jsonargparse import Namespace
 
-    return Namespace(a=3, b=3, m=Namespace(class_path="vf.fixtures.Sub1", init_args=Namespace(w=2, z=0.5, k=4)), tags=["t"], opt=None, subcommand="fit", fit=Namespace(x=4))
+    return Namespace(a=3, b=3, m=Namespace(class_path="vf.fixtures.Sub1", init_args=Namespace(w=2, z=0.5, k=4)), sd=Namespace(class_path="vf.fixtures.Sub1", init_args=Namespace(w=5, z=0.75, k=4)), tags=["t"], opt=None, subcommand="fit", fit=Namespace(x=4))
 
 
 def _plain(v):
@@ -139,6 +142,16 @@ def _run(parser, op, ints):
                 r = parser.parse_args(["--grp.q.k=9", "fit"])
             elif op == "nested_opt_r":  # ... and another member in another parse: the first must not be remembered
                 r = parser.parse_args(["--grp.q.r=0.5", "fit"])
+            elif op == "parse_string_other_class":  # the key has no value yet when the other class arrives
+                r = parser.parse_string("sd:\n  class_path: vf.fixtures.Sub2\nfit:\n  x: 6\n")
+            elif op == "parse_env_other_class":
+                r = parser.parse_env({"APP_SD": "vf.fixtures.Sub2", "APP_SUBCOMMAND": "fit"})
+            elif op == "parse_object_nodefaults_other_class":
+                r = parser.parse_object({"sd": {"class_path": "vf.fixtures.Sub2"}, "subcommand": "fit", "fit": {"x": 1}}, defaults=False)
+            elif op == "cfg_fail_after_class":  # fails inside the text given to --cfg, after a class was chosen on the command line
+                r = parser.parse_args(["--m=Sub1", "--cfg", "a: bad", "fit"])
+            elif op == "parse_string_init_only":  # init_args without a class: an error unless something remembers a class
+                r = parser.parse_string("m:\n  init_args:\n    z: 0.25\nfit:\n  x: 6\n")
             elif op == "parse_args_class":
                 r = parser.parse_args(["--m=Sub1", "--m.w=8", "test", "--y=[3]"])
             else:
@@ -188,9 +201,18 @@ def history(k, ops, first=None, fresh_file=None):
     for op in ops:  # warm-up on throw-away parsers (lazy registrations, caches)
         _run(_factory(), op, [1, 2])
 
+    def _concrete(fn, *a):
+        # everything but the object operation is concrete: run it outside the tracer (same code, no symbolic values involved)
+        if S.replaying is not None:
+            return fn(*a)
+        from crosshair.tracers import NoTracing
+
+        with NoTracing():
+            return fn(*a)
+
     def harness():
-        untouched = _factory()
-        reused = _factory()
+        untouched = _concrete(_factory)
+        reused = _concrete(_factory)
         hist = []
         for step in range(k):
             if step == 0 and first is not None:
@@ -200,7 +222,7 @@ def history(k, ops, first=None, fresh_file=None):
             ints = [S.int(f"i{step}a"), S.int(f"i{step}b")] if op == "parse_object_ok" else [0, 0]
             hist.append(op)
             S.note(op)
-            got = _run(reused, op, ints)
+            got = _run(reused, op, ints) if op == "parse_object_ok" else _concrete(_run, reused, op, ints)
             # reference: the same operation on a fresh parser. For concrete operations it was computed once, in a process
             # of its own, so that state kept outside the parser (context variables, caches) cannot hide in both sides.
             if op == "parse_object_ok":
@@ -211,7 +233,7 @@ def history(k, ops, first=None, fresh_file=None):
             if not _same_outcome(got, want):
                 return Fail("history:outcome-differs-from-fresh-parser", history=list(hist), step=step, reused=_short(got), fresh=_short(want))
         probe = "parse_args_ok" if "parse_args_ok" in ops else ops[0]
-        got = _norm(_run(untouched, probe, [1, 2]))
+        got = _norm(_concrete(_run, untouched, probe, [1, 2]))
         want = fresh[probe]
         if not _same_outcome(got, want):
             return Fail("history:other-parser-in-the-process-affected", history=list(hist), probe=probe, untouched=_short(got), fresh=_short(want))
